@@ -174,3 +174,314 @@ def replay(path):
         print("replay: this file names a broken theorem/correspondence, there is no concrete case"); return 1
     import vp_build  # noqa
     return 0
+
+# ================================================================== whole-project checks
+import gen
+
+def trace_decode(o):
+    out = []
+    for t in trace_list(o):
+        k, h = t.split(":")
+        out.append(k + ":" + unhx(h).decode("utf-8", "replace"))
+    return out
+
+def proj_violation(pid, what, p, oi, om, found=True, extra=None):
+    r = {"property": pid, "what": what, "project": p.to_json(),
+         "implementation": obs_summary(oi), "model(spec)": obs_summary(om) if om else None,
+         "impl_trace": trace_decode(oi), "replay_hint": "./vp replay <this file> re-runs the case text on both sides"}
+    if extra: r.update(extra)
+    return {"found": found, "replay": r}
+
+# ------------------------------------------------------------------ digraph x inputs x schedules (C02, C03, C05)
+NAMES3 = ["/a.txt.txtpp", "/b.txtpp.md", "/sub/c.txtpp"]
+NAMES4 = NAMES3 + ["/sub/d.txt.txtpp"]
+
+def rel_from(frm, to):
+    fd = [x for x in frm.split("/")[1:-1]]; td = to.split("/")[1:]
+    i = 0
+    while i < len(fd) and i < len(td) - 1 and fd[i] == td[i]: i += 1
+    return "/".join([".."] * (len(fd) - i) + td[i:])
+
+def digraph_project(pid, names, edges, inputs, stale=True, after=False, fail=None, mode=0):
+    """file i includes (or `after`s) the output of every j with (i, j) in edges; each file runs a counting
+    command before and after its dependency block and snapshots each dependency when it reaches it"""
+    p = Project(pid)
+    for i, s in enumerate(names):
+        tag = s.split("/")[-1].split(".")[0]
+        L = ["%s-top" % tag]
+        deps = [j for (a, j) in edges if a == i]
+        # consecutive directive lines use different prefixes: a line that starts with the previous directive's
+        # prefix would be swallowed as its continuation
+        pre = itertools.cycle(["-", "=", "+", "~"])
+        for j in deps:
+            o = rel_from(s, gen.out_name(names[j]))
+            L.append("%sTXTPP#%s %s" % (next(pre), "after" if after else "include", o))
+            L.append("%sTXTPP#run cat %s > @M@/snap_%d_%d; true" % (next(pre), o, i, j))
+        L.append("%sTXTPP#run printf x >> @M@/cnt_%d; printf 'ran-%s\\n'" % (next(pre), i, tag))
+        if fail == i: L.append("%sTXTPP#run false" % next(pre))
+        L.append("%s-bot" % tag)
+        p.files.append((s, ("\n".join(L) + "\n").encode()))
+        if stale: p.files.append((gen.out_name(s), b"STALE OUTPUT\n"))
+    p.inputs = [(names[i] if k % 2 else gen.out_name(names[i])).lstrip("/") for k, i in enumerate(inputs)]
+    p.mode = mode
+    p.sched = []
+    p.edges = list(edges); p.names = list(names); p.input_idx = list(inputs)
+    return p
+
+def canon_graphs(n, self_loops=True):
+    """all digraphs on n labelled vertices up to relabelling TOGETHER with the input subset: we canonicalise (edges, inputs)"""
+    verts = list(range(n))
+    pairs = [(i, j) for i in verts for j in verts if self_loops or i != j]
+    seen = set(); out = []
+    for mask in range(1 << len(pairs)):
+        edges = [pairs[k] for k in range(len(pairs)) if mask >> k & 1]
+        for imask in range(1, 1 << n):
+            inputs = [v for v in verts if imask >> v & 1]
+            best = None
+            for perm in itertools.permutations(verts):
+                e2 = tuple(sorted((perm[a], perm[b]) for a, b in edges)); i2 = tuple(sorted(perm[v] for v in inputs))
+                key = (e2, i2)
+                if best is None or key < best: best = key
+            if best in seen: continue
+            seen.add(best); out.append((list(best[0]), list(best[1])))
+    return out
+
+def reachable_from(inputs, edges):
+    r = set(inputs); ch = True
+    while ch:
+        ch = False
+        for a, b in edges:
+            if a in r and b not in r: r.add(b); ch = True
+    return r
+
+def can_reach_cycle(v, edges):
+    """v can reach a vertex that lies on a cycle"""
+    succ = collections.defaultdict(set)
+    for a, b in edges: succ[a].add(b)
+    def reach(x):
+        r = set(); st = [x]
+        while st:
+            y = st.pop()
+            for z in succ[y]:
+                if z not in r: r.add(z); st.append(z)
+        return r
+    on_cycle = {x for x in set(a for a, _ in edges) | set(b for _, b in edges) if x in reach(x)}
+    return v in on_cycle or bool(reach(v) & on_cycle)
+
+def enumerate_schedules(projs, max_per=None):
+    """all completion orders of each project: breadth-first over the controller's choice points, using the
+    implementation's own report of how many tasks were pending at each choice"""
+    done = []   # (project index, schedule, impl line)
+    frontier = [(k, []) for k in range(len(projs))]
+    counts = collections.Counter()
+    while frontier:
+        batch = []
+        for k, sched in frontier:
+            q = projs[k].copy(); q.sched = list(sched); q.id = "%s.%d" % (projs[k].id, len(batch)); batch.append(q)
+        outs = run_impl([q.text() for q in batch])
+        nxt = []
+        for (k, sched), q, line in zip(frontier, batch, outs):
+            o = parse_obs(line)
+            ns = [int(x) for x in o["N"].split(",") if x]
+            full = list(sched) + [0] * (len(ns) - len(sched))
+            q.sched = full
+            done.append((k, q, o)); counts[k] += 1
+            for i in range(len(sched), len(ns)):
+                for c in range(1, ns[i]):
+                    if max_per is None or counts[k] + sum(1 for (kk, _) in nxt if kk == k) < max_per:
+                        nxt.append((k, full[:i] + [c]))
+        frontier = nxt
+    return done
+
+def graph_sweep(tier_, sd, pid, after=False):
+    rng = Rng(sd).fork("graphs")
+    n = 3
+    graphs = canon_graphs(n)
+    names = NAMES3
+    if tier_ == "quick":
+        # every graph/input class on <= 3 files; schedules capped per case only as a safety net
+        cap = 40
+    else:
+        cap = None
+    projs = [digraph_project("g%d" % k, names, e, i, after=after) for k, (e, i) in enumerate(graphs)]
+    complete_oracles(projs)
+    runs = enumerate_schedules(projs, max_per=cap)
+    # model on exactly the same schedules
+    mouts = [parse_obs(x) for x in run_model([q.text() for (_, q, _) in runs])]
+    return projs, runs, mouts
+
+def dag_classes(n):
+    """acyclic digraphs on n vertices (edges i->j only for i<j after relabelling) up to isomorphism, with input subsets"""
+    verts = list(range(n)); pairs = [(i, j) for i in verts for j in verts if i < j]
+    seen = set(); out = []
+    for mask in range(1 << len(pairs)):
+        edges = [pairs[k] for k in range(len(pairs)) if mask >> k & 1]
+        for imask in range(1, 1 << n):
+            inputs = [v for v in verts if imask >> v & 1]
+            best = None
+            for perm in itertools.permutations(verts):
+                key = (tuple(sorted((perm[a], perm[b]) for a, b in edges)), tuple(sorted(perm[v] for v in inputs)))
+                if best is None or key < best: best = key
+            if best in seen: continue
+            seen.add(best); out.append((list(best[0]), list(best[1])))
+    return out
+
+def seq_build(names, edges, after=False):
+    """the one-file-at-a-time build in dependency order, as plain Python (independent of the model):
+    expected output bytes of every file that cannot reach a cycle"""
+    memo = {}
+    def content(i):
+        if i in memo: return memo[i]
+        tag = names[i].split("/")[-1].split(".")[0]
+        s = "%s-top\n" % tag
+        for (a, j) in edges:
+            if a == i and not after: s += content(j)
+        s += "ran-%s\n%s-bot\n" % (tag, tag)
+        memo[i] = s; return s
+    out = {}
+    for i in range(len(names)):
+        if not can_reach_cycle(i, edges): out[i] = content(i).encode()
+    return out
+
+def sweep_cases(tier_, after=False):
+    cases = [(NAMES3, e, i) for (e, i) in canon_graphs(3)]
+    d4 = dag_classes(4)
+    if tier_ == "quick":
+        d4 = [(e, i) for (e, i) in d4 if len(i) <= 2 or len(i) == 4]
+    cases += [(NAMES4, e, i) for (e, i) in d4]
+    return [digraph_project("g%d" % k, nm, e, i, after=after) for k, (nm, e, i) in enumerate(cases)]
+
+def run_sweep(tier_, after=False, cap=None):
+    projs = sweep_cases(tier_, after)
+    complete_oracles(projs)
+    runs = enumerate_schedules(projs, max_per=cap)
+    mouts = [parse_obs(x) for x in run_model([q.text() for (_, q, _) in runs])]
+    return projs, runs, mouts
+
+def sweep_common_cov(projs, runs, mouts, tier_):
+    shapes = collections.Counter()
+    for (k, q, oi) in runs:
+        cyc = any(can_reach_cycle(v, q.edges) for v in reachable_from(q.input_idx, q.edges))
+        shapes["%d files, %s" % (len(q.names), "cyclic" if cyc else "acyclic")] += 1
+    traces = set((k, oi["T"]) for (k, q, oi) in runs)
+    q = runs[len(runs) // 2][1]
+    return {
+        "evaluations": len(runs), "distinct_nontrivial": len(traces),
+        "rule": "every digraph with self-loops on <= 3 files and every acyclic digraph on 4 files (%s), up to relabelling together with the set of requested inputs, "
+                "x every completion order (breadth-first over the scheduling controller's choice points, no cap); stale outputs planted at every output path; "
+                "non-trivial/distinct = distinct (graph class, task trace)" % ("input sets of size 1, 2 and 4 in the quick tier" if tier_ == "quick" else "all input sets"),
+        "exhaustive": True, "graph_input_classes": len(projs), "schedules_run": len(runs), "shape_distribution": dict(shapes),
+        "schedule_length_max": max(len(trace_list(oi)) for (_, _, oi) in runs),
+        "traces_validated_against_impl": len(runs),
+        "samples": [{"edges": q.edges, "inputs": q.input_idx, "schedule": q.sched, "trace": trace_decode(runs[len(runs) // 2][2]),
+                     "verdict": runs[len(runs) // 2][2]["verdict"]}],
+    }
+
+def check_C02(tier_, sd, consts_ok, consts_detail):
+    violations = []
+    cov = None
+    for after in (False, True):
+        projs, runs, mouts = run_sweep(tier_, after=after)
+        if cov is None: cov = sweep_common_cov(projs, runs, mouts, tier_)
+        else:
+            cov["evaluations"] += len(runs); cov["traces_validated_against_impl"] += len(runs)
+            cov["after_variant_runs"] = len(runs)
+        for (k, q, oi), om in zip(runs, mouts):
+            if len(violations) >= 5: break
+            exp = seq_build(q.names, q.edges, after)
+            req = reachable_from(q.input_idx, q.edges)
+            # (1) property predicate on the implementation: success => every required output equals the sequential build
+            if oi["verdict"] == "ok":
+                for i in req:
+                    got = oi["F"].get(gen.out_name(q.names[i]))
+                    if i in exp and got != exp[i]:
+                        violations.append(proj_violation("C02", "output of %s differs from the one-file-at-a-time build (stale, partial or missing dependency observed)" % q.names[i],
+                                                         q, oi, om, extra={"expected": short(exp[i]), "got": short(got)})); break
+                # a command placed after include/after X saw the complete fresh X
+                for name, snap in oi["M"].items():
+                    if name.startswith("snap_"):
+                        _, i, j = name.split("_"); j = int(j)
+                        if j in exp and snap != exp[j]:
+                            violations.append(proj_violation("C02", "command after the dependency directive for %s ran before that output was complete and fresh" % q.names[j],
+                                                             q, oi, om, extra={"snapshot": short(snap), "expected": short(exp[j])})); break
+            # (2) correspondence with the model on the same schedule: trace, verdict, bytes
+            if (oi["verdict"], oi["T"], oi["F"]) != (om["verdict"], om["T"], om["F"]) and len(violations) < 5:
+                fail_input = oi["verdict"] == "ok" and any(oi["F"].get(gen.out_name(q.names[i])) != exp.get(i) for i in req if i in exp)
+                violations.append(proj_violation("C02", "coordinator trace / verdict / bytes differ from Run.txtpp_run on the same schedule (correspondence Coord.handle vs run_internal)",
+                                                 q, oi, om, found=fail_input))
+    return {"coverage": cov, "violations": violations}
+
+def check_C03(tier_, sd, consts_ok, consts_detail):
+    projs, runs, mouts = run_sweep(tier_)
+    cov = sweep_common_cov(projs, runs, mouts, tier_)
+    violations = []
+    for (k, q, oi), om in zip(runs, mouts):
+        if len(violations) >= 5: break
+        req = reachable_from(q.input_idx, q.edges)
+        if oi["verdict"] in ("hang", "panic"):
+            violations.append(proj_violation("C03", "run did not terminate normally: " + oi["verdict"], q, oi, om)); continue
+        tr = trace_decode(oi)
+        finals = collections.Counter()
+        # a file is completed by its second pass, or by its first pass when it has no dependency
+        for t in tr:
+            kind, path = t.split(":", 1)
+            i = q.names.index(path) if path in q.names else None
+            if i is None: continue
+            has_deps = any(a == i for a, _ in q.edges)
+            if kind == "p2" or (kind == "p1" and not has_deps): finals[i] += 1
+        for i in range(len(q.names)):
+            cnt = len(oi["M"].get("cnt_%d" % i, b""))
+            if cnt > 1 or finals[i] > 1:
+                violations.append(proj_violation("C03", "file %s completed %d times / its command ran %d times" % (q.names[i], finals[i], cnt), q, oi, om)); break
+            if oi["verdict"] == "ok" and i in req and (cnt != 1 or gen.out_name(q.names[i]) not in oi["F"]):
+                violations.append(proj_violation("C03", "success reported but %s was not completed exactly once (count %d)" % (q.names[i], cnt), q, oi, om)); break
+        if (oi["verdict"], oi["T"]) != (om["verdict"], om["T"]) or oi["M"].keys() != {**oi["M"], **{k_: v for k_, v in model_marks(om).items()}}.keys():
+            if len(violations) < 5:
+                violations.append(proj_violation("C03", "task trace / verdict differ from Run.txtpp_run on the same schedule", q, oi, om, found=False))
+    # duplicate and aliased inputs, directories scanned together with files
+    rng = Rng(sd).fork("C03dup")
+    dprojs = []
+    for k in range(60 if tier_ == "quick" else 400):
+        edges = [(0, 1), (0, 2), (1, 2)] if k % 2 else [(0, 1)]
+        q = digraph_project("dup%d" % k, NAMES3, edges, [0])
+        alias = ["a.txt", "a.txt.txtpp", "./a.txt", "sub/../a.txt", ".", "sub", "b.md", "b.txtpp.md", "sub/c", "./sub/./c.txtpp"]
+        q.inputs = [rng.choice(alias) for _ in range(2 + rng.below(5))]
+        q.recursive = rng.chance(1, 2)
+        q.sched = [rng.below(5) for _ in range(16)]
+        dprojs.append(q)
+    di, dm = both(dprojs)
+    for q, oi, om in zip(dprojs, di, dm):
+        bad = [n for n, v in oi["M"].items() if n.startswith("cnt_") and len(v) != 1]
+        if oi["verdict"] != "ok" or bad:
+            if len(violations) < 5:
+                violations.append(proj_violation("C03", "aliased/duplicate inputs: verdict %s, commands run more than once: %s" % (oi["verdict"], bad), q, oi, om))
+        elif (oi["verdict"], oi["F"], oi["T"]) != (om["verdict"], om["F"], om["T"]) and len(violations) < 5:
+            violations.append(proj_violation("C03", "aliased inputs: trace/bytes differ from the model", q, oi, om, found=False))
+    cov["evaluations"] += len(dprojs); cov["aliased_input_cases"] = len(dprojs)
+    return {"coverage": cov, "violations": violations}
+
+def check_C05(tier_, sd, consts_ok, consts_detail):
+    projs, runs, mouts = run_sweep(tier_)
+    cov = sweep_common_cov(projs, runs, mouts, tier_)
+    violations = []
+    ncyc = 0
+    for (k, q, oi), om in zip(runs, mouts):
+        if len(violations) >= 5: break
+        req = reachable_from(q.input_idx, q.edges)
+        cyc = any(can_reach_cycle(v, q.edges) for v in req)
+        ncyc += cyc
+        exp = seq_build(q.names, q.edges)
+        if oi["verdict"] in ("hang", "panic"):
+            violations.append(proj_violation("C05", "run ended with " + oi["verdict"], q, oi, om)); continue
+        if cyc and oi["verdict"] != "err":
+            violations.append(proj_violation("C05", "a required file can reach a dependency cycle but the run reported success", q, oi, om)); continue
+        if not cyc and oi["verdict"] != "ok":
+            violations.append(proj_violation("C05", "project without cycles failed (false circular-dependency error?)", q, oi, om)); continue
+        for i in req:
+            if i in exp and oi["F"].get(gen.out_name(q.names[i])) != exp[i]:
+                violations.append(proj_violation("C05", "required file %s cannot reach a cycle but was not built correctly" % q.names[i], q, oi, om,
+                                                 extra={"expected": short(exp[i])})); break
+        if (oi["verdict"], oi["T"], oi["F"]) != (om["verdict"], om["T"], om["F"]) and len(violations) < 5:
+            violations.append(proj_violation("C05", "trace / verdict / bytes differ from Run.txtpp_run on the same schedule", q, oi, om, found=False))
+    cov["runs_with_reachable_cycle"] = ncyc
+    return {"coverage": cov, "violations": violations}
